@@ -41,7 +41,7 @@ PROPS = {
         relevant=["C03:"],
         theorems=['DV.Props.C03.C03_avp_nopanic', 'DV.Props.C03.C03_avps_nopanic', 'DV.Props.C03.C03_header_nopanic', 'DV.Props.C03.C03_message_nopanic', 'DV.Props.C03.C03_short_length_rejected', 'DV.Props.C03.C03_pretty_asserts', 'DV.Props.C03.C03_serialize_fits', 'DV.Props.C03.C03_serialize_message_fits', 'DV.Props.C03.C03_gen',
                   'DV.Props.C03.C03_body_bound', 'DV.Props.C03.C03_claimed_length_counterexample', 'DV.Props.C03.C03_nesting_cost_counterexample', 'DV.Props.C03.C03_no_linear_bound'],
-        gen_obligations=['Gen.HeaderLength', 'Gen.Vbit', 'Gen.available ⊆ Gen.decoderKeys', 'Gen.prettyAsserts', 'Gen.bodyChunkLength'],
+        gen_obligations=['Gen.HeaderLength', 'Gen.Vbit', 'Gen.available ⊆ Gen.decoderKeys', 'Gen.prettyAsserts', 'Gen.bodyChunkLength', 'Gen.readMessageCalls', 'Gen.readBodyGuard'],
         trusted=CODEC_TRUST,
     ),
     "C04": dict(
@@ -55,7 +55,7 @@ PROPS = {
         domains=[("stream", "read", 6000, 80000), ("stream", "exhaustive", 1500, 6000), ("conn", "serve", 400, 4000), ("conn", "cnall4", 1, 1), ("conn", "xtalk", 24, 200)],
         relevant=["C05:"],
         theorems=["DV.Props.C05."+t for t in ["C05_split","C05_frag","C05_one","C05_eof","C05_in_header","C05_by_length","C05_gen"]],
-        gen_obligations=["Gen.HeaderLength","Gen.MessageBufferLength"],
+        gen_obligations=["Gen.HeaderLength","Gen.MessageBufferLength","Gen.readMessageCalls","Gen.readBodyGuard","Gen.readBodyLength"],
         trusted=CODEC_TRUST + ["Model.Stream hand-written from message.go readHeader/readBody and io.ReadFull's contract"],
     ),
     "C07": dict(
